@@ -215,7 +215,7 @@ def r3(ctx):
             names = [e.name.split("::")[-1] for e in ops]
             ok = all(n == "fetch_add" for n in names) and len(ops) <= 1 and all(e.args[1] == 1 for e in ops)
             rep.check(ok, "get_cas_id:single-fetch_add", "token allocation = one fetch_add(1) on the cas counter", "a path of MemoryStore::%s operates on the cas counter with %s: the token is not allocated by a single atomic fetch_add(1), two stores can be handed the same token" % (b.name, names), b.loc())
-    rep.check(n_ops > 0, "cas-counter:used", "%d counter operations examined" % n_ops, "no operation on the cas counter found on any path of MemoryStore (cannot decide how tokens are allocated)", f.one(ms("set")).loc())
+    rep.check(n_ops > 0, "cas-counter:used", "%d counter operations examined" % n_ops, "no operation on the cas counter found on any path of MemoryStore (cannot decide how tokens are allocated)", safe_loc(f, ms("set")))
     # census: the counter field is referenced only inside MemoryStore's own code
     fld = R.ms_cas
     for body in f.bodies.values():
